@@ -101,7 +101,7 @@ def run(v) -> None:
     v.add_tlc(tlc.must_pass(tlc.run("MC_Fold", "MC_Fold.cfg", workers=12, timeout=3000), "MC_Fold"), "MC_Fold")
     geoms = []
     ratios = [(25, 2), (7, 1), (5, 1), (33, 4), (9, 2), (15, 1)]
-    for _ in range(70 if quick else 400):
+    for _ in range(70 if quick else 900):
         C = rng.choice([1, 2, 3, 4, 4])
         N = rng.choice([60, 96, 120, 75])
         pn, pd = rng.choice(ratios)
